@@ -126,4 +126,17 @@ template<int KA> static void t_assign_range() {   // assign(first, last) and = {
 }
 VF_HARNESS(assign_range_k1) { t_assign_range<1>(); vf_reach("assign_range_k1"); }
 VF_HARNESS(assign_range_k0) { t_assign_range<0>(); vf_reach("assign_range_k0"); }
+VF_HARNESS(assign_range_rebased) {   // assign(first,last) / = {list} on an array with a non-zero index base: the result is the value array(first,last) (zero-based), whatever was there
+  L b = vf_range(-2, 2); L n = vf_range(0, 3);
+  int x0 = vf_nondet_int(); int x1 = vf_nondet_int(); int x2 = vf_nondet_int();
+  T src[3] = {T(x0), T(x1), T(x2)};
+  L cnt = vf_range(0, 3); L form = vf_range(0, 1);
+  { SLOT(0); Arr a(multi::extensions_t<1>{multi::index_extension(b, b + n)}, T(5)); SLOT(2);
+    if(form == 0) { a.assign(src, src + cnt); } else { vf_assume(cnt == 3); a = {T(x0), T(x1), T(x2)}; }
+    vf_assert(a.size() == cnt && (cnt == 0 || a.extension().first() == 0), "assign(first,last) / = {list} gives the zero-based extension [0, last-first)");
+    L k = vf_nondet_long(); vf_assume(0 <= k && k < cnt);
+    vf_assert(val(a[k]) == (k == 0 ? x0 : (k == 1 ? x1 : x2)), "assign(first,last) gives exactly the requested contents at index k"); }
+  check_all_released();
+  vf_reach("assign_range_rebased");
+}
 #endif
